@@ -45,8 +45,8 @@
 (* instead of cleaned byte strings: RuleChoiceIsLongestMatch,              *)
 (* ChoiceIsOrderIndependent, ExceptMeansNotProxied,                        *)
 (* TargetIsBasePlusStrippedPath, QueryIsBaseThenRequest, NoPathEscape,     *)
-(* PoolIsToThenUpstream, SchemelessIsHTTP (and what FromPrefixIsSegmentWise*)
-(* turns out to be: InScope).                                              *)
+(* FromPrefixIsSegmentWise (what it turns out to be: UnderR),              *)
+(* PoolIsToThenUpstream, SchemelessIsHTTP, RefusedOnlyForCause.            *)
 (*                                                                         *)
 (* Texts are sequences of one-character strings (TLC cannot index a        *)
 (* string); a request path is a sequence of TOKENS: a literal byte ("a",   *)
@@ -69,8 +69,10 @@ CONSTANTS Spaces,       \* which factored case spaces: subset of {"route", "targ
           RouteSegs3,   \* a smaller alphabet for route paths with RouteMax + 1 segments ({} = none)
           RouteFroms,   \* from-paths of space "route" (names, see PathOf)
           RouteExcepts, \* except lists of space "route" (names, see ExOf)
+          RouteExcepts1,\* further except lists, for the one-rule sets only
           Route3,       \* TRUE: also the three-rule sets
-          TargetSegs, TargetMax,
+          TargetSegs, TargetMax,     \* the same for space "target"
+          TargetSegs3,  \* a smaller alphabet for target paths with TargetMax + 1 segments
           WithoutRaw,   \* "decoded": `without` is cut from RawPath by the encoded prefix that spells it (repaired)
                         \* "bytes"  : strings.TrimPrefix(RawPath, without) (as found: /%61/x%2Fy with without /a)
           SchemeTest    \* "scheme" : a target is scheme-less unless it starts with http:// or https:// (repaired)
@@ -124,12 +126,14 @@ Clean(p) == LET st == CleanSegs(p) IN IF st = << >> THEN <<"/">> ELSE JoinSegs(s
 \* "re-add a trailing slash if the original path had one and the cleaned path doesn't" (AllowedPath)
 CleanKeep(p) == LET c == Clean(p) IN IF EndsSlash(p) /\ ~EndsSlash(c) THEN c \o <<"/">> ELSE c
 
-\* httpserver.Path(p).Matches(base), line by line (CaseSensitivePath is false by default)
-Matches(p, base) ==
+\* httpserver.Path(p).Matches(base), line by line (CaseSensitivePath is false by default); MatchesC takes path.Clean(p) and
+\* "p ends with a slash" from the caller, who keeps them in the state (the code computes them anew in every call)
+MatchesC(cleanP, pSlash, base) ==
     IF base = <<"/">> \/ base = << >> THEN TRUE
-    ELSE LET pc == Clean(p) \o (IF EndsSlash(p) THEN <<"/">> ELSE << >>)       \* added even when Clean gave "/"
+    ELSE LET pc == cleanP \o (IF pSlash THEN <<"/">> ELSE << >>)       \* added even when Clean gave "/"
              bc == Clean(base) \o (IF EndsSlash(base) THEN <<"/">> ELSE << >>)
          IN  HasPrefix(LowS(pc), LowS(bc))
+Matches(p, base) == MatchesC(Clean(p), EndsSlash(p), base)
 
 \* AllowedPath: e := path.Join(u.From(), ignoredSubPath), trailing slash of the entry put back
 ExceptPath(from, e) == LET j == Clean(from \o <<"/">> \o e) IN IF EndsSlash(e) /\ ~EndsSlash(j) THEN j \o <<"/">> ELSE j
@@ -196,7 +200,7 @@ RouteRule(pos, f, e) ==
     Rule(PathOf(f), ExOf(e), IF pos = 2 THEN PathOf("/a") ELSE << >>,
          <<CASE pos = 1 -> Plain(1, "", "") [] pos = 2 -> Tok("http://", "B", <<2>>, PathOf("/svc"), "") [] pos = 3 -> Plain(3, "/svc/", "k=v")>>, << >>)
 RouteVariants == RouteFroms \X RouteExcepts
-Route1 == {<<RouteRule(1, a[1], a[2])>> : a \in RouteVariants}
+Route1 == {<<RouteRule(1, a[1], a[2])>> : a \in RouteVariants \cup (RouteFroms \X RouteExcepts1)}
 Route2 == {<<RouteRule(1, a[1], a[2]), RouteRule(2, b[1], b[2])>> : a \in RouteVariants, b \in RouteVariants}
 \* three rules: the three nested scopes in every written order (excepts none or /x), and ties (/a, /A, /a) around a longer rule
 Route3Sets ==
@@ -212,7 +216,7 @@ RouteReqs == {[raw |-> p, q |-> "", fq |-> FALSE] : p \in RawPaths(RouteSegs, Ro
 \* -- space "target": one rule; from x without x base (a query comes with the last base, as in `/svc?k=v`)
 TargetSets == {<<Rule(PathOf(f), << >>, PathOf(w), <<Plain(1, b[1], b[2])>>, << >>)>> :
                   f \in {"/", "/a"}, w \in {"", "/a", "/a/", "/a/b", "/A"}, b \in {<<"", "">>, <<"/svc", "">>, <<"/svc/", "">>, <<"/svc", "k=v">>}}
-TargetReqs == {[raw |-> p, q |-> "", fq |-> FALSE] : p \in RawPaths(TargetSegs, TargetMax)}
+TargetReqs == {[raw |-> p, q |-> "", fq |-> FALSE] : p \in RawPaths(TargetSegs, TargetMax) \cup RawPaths(TargetSegs3, TargetMax + 1)}
 
 \* -- space "query": one rule "/" x target queries x request queries
 QuerySets == {<<Rule(PathOf("/"), << >>, << >>, <<Plain(1, b[1], b[2])>>, << >>)>> :
@@ -270,6 +274,17 @@ HostOf(t) ==
              THEN [kind |-> "broken", scheme |-> t.name, auth |-> "", base |-> << >>, bq |-> t.q, sock |-> FALSE]   \* url.Parse("httpd:1/svc"): scheme httpd
         ELSE [kind |-> "tcp", scheme |-> IF t.sch = "https://" THEN "https" ELSE "http", auth |-> auth, base |-> t.path, bq |-> t.q, sock |-> FALSE]
 
+\* the text that names a Casketfile in the CASE lines and in the mismatch keys
+TokId(t) == t.sch \o t.name \o (IF t.ports = << >> THEN "" ELSE ":" \o ToString(t.ports[1]) \o (IF Len(t.ports) = 2 THEN "-" \o ToString(t.ports[2]) ELSE "")) \o Str(t.path) \o (IF t.q = "" THEN "" ELSE "?" \o t.q)
+RECURSIVE TokIds(_)
+TokIds(ts) == IF ts = << >> THEN "" ELSE TokId(Head(ts)) \o (IF Len(ts) > 1 THEN "," ELSE "") \o TokIds(Tail(ts))
+RECURSIVE ExIds(_)
+ExIds(es) == IF es = << >> THEN "" ELSE Str(Head(es)) \o (IF Len(es) > 1 THEN "," ELSE "") \o ExIds(Tail(es))
+RuleId(r) == Str(r.from) \o " to=" \o TokIds(r.to) \o (IF r.ups = << >> THEN "" ELSE " up=" \o TokIds(r.ups))
+             \o (IF r.ex = << >> THEN "" ELSE " ex=" \o ExIds(r.ex)) \o (IF r.wo = << >> THEN "" ELSE " wo=" \o Str(r.wo))
+RECURSIVE RuleIds(_)
+RuleIds(rs) == IF rs = << >> THEN "" ELSE RuleId(Head(rs)) \o (IF Len(rs) > 1 THEN " | " ELSE "") \o RuleIds(Tail(rs))
+
 -----------------------------------------------------------------------------
 (* 4. state *)
 
@@ -280,17 +295,19 @@ VARIABLES cfg,        \* [space, rules]: the Casketfile
           best, bestLen,   \* `u` and `longestMatch` of Proxy.match
           host,       \* index of the selected host in pools[best]
           url,        \* the outgoing request's URL: [path, rawpath, query, fq]
+          judged,     \* path.Clean(r.URL.Path) and whether r.URL.Path ends with a slash: what Matches / AllowedPath look at
           sent        \* what went on the wire: [rule, host, kind, scheme, auth, path, query, fq]
-vars == <<cfg, pools, req, pc, i, j, best, bestLen, host, url, sent>>
+vars == <<cfg, pools, req, pc, i, j, best, bestLen, host, url, judged, sent>>
 
 N == Len(cfg.rules)
 NoReq == [raw |-> << >>, q |-> "", fq |-> FALSE]
 NoURL == [path |-> << >>, rawpath |-> << >>, query |-> "", fq |-> FALSE]
+NoJudged == [clean |-> << >>, slash |-> FALSE]
 NoSent == [rule |-> 0, host |-> 0, kind |-> "", scheme |-> "", auth |-> "", path |-> << >>, query |-> "", fq |-> FALSE]
 
-Init == /\ \E sp \in Spaces : \E rs \in SetsOf(sp) : cfg = [space |-> sp, rules |-> rs]
+Init == /\ \E sp \in Spaces : \E rs \in SetsOf(sp) : cfg = [space |-> sp, rules |-> rs, id |-> sp \o ": " \o RuleIds(rs)]
         /\ pools = << >> /\ req = NoReq /\ pc = "setup" /\ i = 1 /\ j = 0 /\ best = 0 /\ bestLen = 0 /\ host = 0
-        /\ url = NoURL /\ sent = NoSent
+        /\ url = NoURL /\ judged = NoJudged /\ sent = NoSent
 
 -----------------------------------------------------------------------------
 (* 5. actions *)
@@ -305,12 +322,12 @@ SetupRule ==
        IN  IF ok THEN /\ pools' = Append(pools, [k \in 1..Len(all) |-> [tok |-> all[k], h |-> HostOf(all[k])]])
                       /\ i' = i + 1 /\ pc' = pc
            ELSE pc' = "refused" /\ UNCHANGED <<pools, i>>
-    /\ UNCHANGED <<cfg, req, j, best, bestLen, host, url, sent>>
+    /\ UNCHANGED <<cfg, req, j, best, bestLen, host, url, judged, sent>>
 
 SetupDone ==
     /\ pc = "setup" /\ i > N
     /\ pc' = "recv" /\ i' = 1
-    /\ UNCHANGED <<cfg, pools, req, j, best, bestLen, host, url, sent>>
+    /\ UNCHANGED <<cfg, pools, req, j, best, bestLen, host, url, judged, sent>>
 
 \* url.setPath: RawPath is kept only when the spelling differs from the default encoding of Path
 Receive ==
@@ -318,14 +335,15 @@ Receive ==
     /\ \E r \in ReqsOf(cfg.space) :
          /\ req' = r
          /\ url' = [path |-> DecS(r.raw), rawpath |-> IF EscS(DecS(r.raw)) = r.raw THEN << >> ELSE r.raw, query |-> r.q, fq |-> r.fq]
+         /\ judged' = [clean |-> Clean(DecS(r.raw)), slash |-> EndsSlash(DecS(r.raw))]
     /\ pc' = "match" /\ i' = 1 /\ best' = 0 /\ bestLen' = 0
     /\ UNCHANGED <<cfg, pools, j, host, sent>>
 
 MatchIter ==
     /\ pc = "match" /\ i <= N
-    /\ IF Matches(url.path, cfg.rules[i].from) THEN pc' = "allowed" /\ j' = 1 /\ i' = i
+    /\ IF MatchesC(judged.clean, judged.slash, cfg.rules[i].from) THEN pc' = "allowed" /\ j' = 1 /\ i' = i
        ELSE i' = i + 1 /\ UNCHANGED <<pc, j>>
-    /\ UNCHANGED <<cfg, pools, req, best, bestLen, host, url, sent>>
+    /\ UNCHANGED <<cfg, pools, req, best, bestLen, host, url, judged, sent>>
 
 AllowedIter ==
     /\ pc = "allowed"
@@ -334,21 +352,22 @@ AllowedIter ==
            THEN \* AllowedPath returned true: `if len(basePath) > longestMatch`
                 /\ IF Len(r.from) > bestLen THEN best' = i /\ bestLen' = Len(r.from) ELSE UNCHANGED <<best, bestLen>>
                 /\ i' = i + 1 /\ pc' = "match" /\ j' = 0
-           ELSE IF Matches(CleanKeep(url.path), ExceptPath(r.from, r.ex[j]))
+           ELSE IF LET p == IF judged.slash /\ ~EndsSlash(judged.clean) THEN judged.clean \o <<"/">> ELSE judged.clean     \* CleanKeep(url.path)
+                   IN  MatchesC(Clean(p), EndsSlash(p), ExceptPath(r.from, r.ex[j]))
            THEN i' = i + 1 /\ pc' = "match" /\ j' = 0 /\ UNCHANGED <<best, bestLen>>      \* return false: `continue`
            ELSE j' = j + 1 /\ UNCHANGED <<i, pc, best, bestLen>>
-    /\ UNCHANGED <<cfg, pools, req, host, url, sent>>
+    /\ UNCHANGED <<cfg, pools, req, host, url, judged, sent>>
 
 MatchDone ==
     /\ pc = "match" /\ i > N
     /\ pc' = IF best = 0 THEN "next" ELSE "select"
-    /\ UNCHANGED <<cfg, pools, req, i, j, best, bestLen, host, url, sent>>
+    /\ UNCHANGED <<cfg, pools, req, i, j, best, bestLen, host, url, judged, sent>>
 
 Select ==
     /\ pc = "select"
     /\ \E h \in 1..Len(pools[best]) : host' = h
     /\ pc' = "strip"
-    /\ UNCHANGED <<cfg, pools, req, i, j, best, bestLen, url, sent>>
+    /\ UNCHANGED <<cfg, pools, req, i, j, best, bestLen, url, judged, sent>>
 
 Target == pools[best][host].h
 StripWithout ==
@@ -360,7 +379,7 @@ StripWithout ==
                   ELSE IF cut THEN Drop(url.rawpath, EncPrefixLen(url.rawpath, w)) ELSE url.rawpath
        IN  url' = [url EXCEPT !.path = IF w = << >> THEN @ ELSE TrimPrefix(@, w), !.rawpath = rp]
     /\ pc' = "join"
-    /\ UNCHANGED <<cfg, pools, req, i, j, best, bestLen, host, sent>>
+    /\ UNCHANGED <<cfg, pools, req, i, j, best, bestLen, host, judged, sent>>
 
 JoinPath ==
     /\ pc = "join"
@@ -370,13 +389,13 @@ JoinPath ==
        IN  url' = IF t.sock THEN [url EXCEPT !.path = TrimPrefix(p1, t.base), !.rawpath = IF rp1 # << >> THEN TrimPrefix(rp1, t.base) ELSE rp1]
                   ELSE [url EXCEPT !.path = p1, !.rawpath = rp1]
     /\ pc' = "query"
-    /\ UNCHANGED <<cfg, pools, req, i, j, best, bestLen, host, sent>>
+    /\ UNCHANGED <<cfg, pools, req, i, j, best, bestLen, host, judged, sent>>
 
 JoinQuery ==
     /\ pc = "query"
     /\ url' = [url EXCEPT !.query = JoinQ(Target.bq, @)]
     /\ pc' = "send"
-    /\ UNCHANGED <<cfg, pools, req, i, j, best, bestLen, host, sent>>
+    /\ UNCHANGED <<cfg, pools, req, i, j, best, bestLen, host, judged, sent>>
 
 \* URL.EscapedPath + RequestURI
 Wire(u) == LET w == IF u.rawpath # << >> /\ DecS(u.rawpath) = u.path THEN u.rawpath ELSE EscS(u.path)
@@ -386,7 +405,7 @@ Send ==
     /\ sent' = [rule |-> best, host |-> host, kind |-> Target.kind, scheme |-> Target.scheme, auth |-> Target.auth,
                 path |-> Wire(url), query |-> url.query, fq |-> url.fq]
     /\ pc' = "sent"
-    /\ UNCHANGED <<cfg, pools, req, i, j, best, bestLen, host, url>>
+    /\ UNCHANGED <<cfg, pools, req, i, j, best, bestLen, host, url, judged>>
 
 Next == SetupRule \/ SetupDone \/ Receive \/ MatchIter \/ AllowedIter \/ MatchDone \/ Select \/ StripWithout \/ JoinPath \/ JoinQuery \/ Send
 Spec == Init /\ [][Next]_vars
@@ -403,45 +422,57 @@ ReqSegs == LET s == CleanSegs(DecS(req.raw)) IN [k \in 1..Len(s) |-> LowS(s[k])]
 ReqTrail == EndsSlash(req.raw) \/ (req.raw # << >> /\ EscapedSlash(req.raw[Len(req.raw)]))
 \* FromPrefixIsSegmentWise, as the code has it: a scope /s1/../sn takes the request /r1/../rm when the first n-1 segments are
 \* equal and sn is a BYTE prefix of rn (`/a` takes /ab and /a;p: not segment-wise in the last segment); a scope written with
-\* a trailing slash wants sn = rn and something - at least a slash - behind it
-Under(scope) ==
+\* a trailing slash wants sn = rn and something - at least a slash - behind it.   R, trail: ReqSegs, ReqTrail
+UnderR(R, trail, scope) ==
     \/ scope = <<"/">> \/ scope = << >>
     \/ LET s0 == CleanSegs(scope)
            s == [k \in 1..Len(s0) |-> LowS(s0[k])]
            n == Len(s)
-           m == Len(ReqSegs)
+           m == Len(R)
        IN  /\ n >= 1 /\ n <= m
-           /\ \A k \in 1..(n - 1) : s[k] = ReqSegs[k]
-           /\ HasPrefix(ReqSegs[n], s[n])
-           /\ EndsSlash(scope) => s[n] = ReqSegs[n] /\ (m > n \/ ReqTrail)
-InScope(r) == Under(r.from)
+           /\ \A k \in 1..(n - 1) : s[k] = R[k]
+           /\ HasPrefix(R[n], s[n])
+           /\ EndsSlash(scope) => s[n] = R[n] /\ (m > n \/ trail)
+InScopeR(R, trail, r) == UnderR(R, trail, r.from)
 \* `except` entries are relative to the rule's from-path (TestAllowedPaths pins this down) and are scopes like any other
-Excepted(r) == \E k \in 1..Len(r.ex) : Under(ExceptPath(r.from, r.ex[k]))
-Takes(r) == InScope(r) /\ ~Excepted(r)
+ExceptedR(R, trail, r) == \E k \in 1..Len(r.ex) : UnderR(R, trail, ExceptPath(r.from, r.ex[k]))
+InScope(r) == InScopeR(ReqSegs, ReqTrail, r)
+Excepted(r) == ExceptedR(ReqSegs, ReqTrail, r)
+\* what Path.Matches answered in Proxy.match is this relation (the other direction is part of RuleChoiceIsLongestMatch)
+FromPrefixIsSegmentWise == pc = "allowed" => InScope(Rules[i])
+\* which rules take the request, as a vector over the written order
+TakesVec == LET R == ReqSegs trail == ReqTrail IN [k \in 1..N |-> InScopeR(R, trail, Rules[k]) /\ ~ExceptedR(R, trail, Rules[k])]
 
 \* -- RuleChoiceIsLongestMatch -----------------------------------------------
 \* of the rules that take the request the one with the longest from-path as written answers; among equally long ones
-\* (/a and /A, the same from-path twice) the first written; none takes it -> the next handler
-Takers(rs) == {k \in 1..Len(rs) : Takes(rs[k])}
-ChoiceOf(rs) == IF Takers(rs) = {} THEN 0
-                ELSE CHOOSE k \in Takers(rs) : \A l \in Takers(rs) : Len(rs[l].from) < Len(rs[k].from) \/ (Len(rs[l].from) = Len(rs[k].from) /\ k <= l)
-RuleChoiceIsLongestMatch == Answered => best = ChoiceOf(Rules) /\ (pc = "next" <=> best = 0) /\ (pc = "sent" => sent.rule = best)
+\* (/a and /A, the same from-path twice) the first written; none takes it -> the next handler.
+\* order: the rules (by their index in cfg.rules) in some written order; the result is a position in that order, 0 = none
+ChoiceIn(order, tv) ==
+    LET T == {p \in 1..Len(order) : tv[order[p]]}
+        L(p) == Len(Rules[order[p]].from)
+    IN  IF T = {} THEN 0 ELSE CHOOSE p \in T : \A l \in T : L(l) < L(p) \/ (L(l) = L(p) /\ p <= l)
+AsWritten == [k \in 1..N |-> k]
+RuleChoiceIsLongestMatch ==
+    Answered => /\ best = ChoiceIn(AsWritten, TakesVec)
+                /\ (pc = "next" <=> best = 0) /\ (pc = "sent" => sent.rule = best)
 
 \* the choice does not depend on the written order, except between equally long from-paths that both take the request
 Perms(n) == {f \in [1..n -> 1..n] : \A x, y \in 1..n : x # y => f[x] # f[y]}
-Tie(rs) == \E k, l \in Takers(rs) : k # l /\ Len(rs[k].from) = Len(rs[l].from) /\ \A o \in Takers(rs) : Len(rs[o].from) <= Len(rs[k].from)
+Tie(tv) == \E k, l \in 1..N : /\ k # l /\ tv[k] /\ tv[l] /\ Len(Rules[k].from) = Len(Rules[l].from)
+                               /\ \A o \in 1..N : tv[o] => Len(Rules[o].from) <= Len(Rules[k].from)
 ChoiceIsOrderIndependent ==
-    Answered /\ ~Tie(Rules) =>
-        \A f \in Perms(N) : LET rs == [k \in 1..N |-> Rules[f[k]]] c == ChoiceOf(rs)
-                            IN  IF best = 0 THEN c = 0 ELSE c # 0 /\ f[c] = best
+    Answered => LET tv == TakesVec
+                IN  ~Tie(tv) => \A f \in Perms(N) : LET c == ChoiceIn(f, tv) IN IF best = 0 THEN c = 0 ELSE c # 0 /\ f[c] = best
 
 \* -- ExceptMeansNotProxied ---------------------------------------------------
 \* an excepted request never reaches a backend of that rule; whichever rule answers would have taken the request as the
-\* only rule of the site (a shorter rule picks an excepted request up only if it matches on its own)
+\* only rule of the site (a shorter rule picks an excepted request up only if it matches on its own); a request that
+\* every rule in whose scope it lies excepts goes to the next handler
 ExceptMeansNotProxied ==
     /\ sent.rule # 0 => ~Excepted(Rules[sent.rule])
-    /\ Answered /\ best # 0 => ChoiceOf(<<Rules[best]>>) = 1
-    /\ Answered /\ (\A k \in 1..N : ~InScope(Rules[k]) \/ Excepted(Rules[k])) => pc = "next"
+    /\ Answered => LET tv == TakesVec
+                   IN  /\ best # 0 => tv[best]
+                       /\ (\A k \in 1..N : ~tv[k]) => pc = "next"
 
 \* -- TargetIsBasePlusStrippedPath --------------------------------------------
 Strip1Trail(p) == IF EndsSlash(p) THEN Take(p, Len(p) - 1) ELSE p
@@ -457,11 +488,11 @@ Cut == SentRule.wo # << >> /\ HasPrefix(DecS(req.raw), SentRule.wo)
 RestDec == IF Cut THEN Drop(DecS(req.raw), Len(SentRule.wo)) ELSE DecS(req.raw)
 CutLen == IF Cut THEN EncPrefixLen(req.raw, SentRule.wo) ELSE 0
 RestRaw == Drop(req.raw, CutLen)
-\* the client's spelling survives when the cut does not go through an escape and no escaped slash sits at the joint
-\* (as found, WithoutRaw = "bytes": only when the prefix itself was spelled without escapes)
-Aligned == ~Cut \/ (/\ CutLen = Len(SentRule.wo)
-                    /\ (RestRaw = << >> \/ ~EscapedSlash(RestRaw[1]))
-                    /\ (WithoutRaw = "bytes" => HasPrefix(req.raw, SentRule.wo)))
+\* the client's spelling survives unless an escaped slash sits right at the joint (/a%2Fx under `without /a`: the remainder
+\* %2Fx has no leading slash for the encoded path but has one for the decoded path - the two joins disagree and net/url
+\* falls back to encoding the decoded path). With WithoutRaw = "bytes" (as found) TLC refutes the second conjunct of
+\* TargetIsBasePlusStrippedPath: /%61/x%2Fy under `without /a` arrives as /x/y
+Aligned == ~Cut \/ RestRaw = << >> \/ ~EscapedSlash(RestRaw[1])
 TargetIsBasePlusStrippedPath ==
     pc = "sent" /\ sent.kind # "broken" =>
         /\ DecS(sent.path) = Joint(SentBase, RestDec)                       \* the path the backend decodes
@@ -502,14 +533,14 @@ Flat(toks) == IF toks = << >> THEN << >>
                        n == IF Len(t.ports) = 2 /\ t.sch # "unix:" THEN t.ports[2] - t.ports[1] + 1 ELSE 1
                    IN  [k \in 1..n |-> IF n = 1 /\ Len(t.ports) # 2 THEN t ELSE [t EXCEPT !.ports = <<t.ports[1] + k - 1>>]] \o Flat(Tail(toks))
 PoolIsToThenUpstream ==
-    \A k \in 1..Len(pools) : LET want == Flat(Rules[k].to \o Rules[k].ups)
+    pc = "recv" => \A k \in 1..Len(pools) : LET want == Flat(Rules[k].to \o Rules[k].ups)
                              IN  /\ Len(pools[k]) = Len(want) /\ Len(want) >= 1
                                  /\ \A l \in 1..Len(want) : /\ pools[k][l].tok = want[l]
                                                             /\ pools[k][l].h.bq = want[l].q
                                                             /\ pools[k][l].h.kind \notin {"unix", "broken"} => pools[k][l].h.base = want[l].path
 \* "If a scheme is not specified, http is used"
 SchemelessIsHTTP ==
-    \A k \in 1..Len(pools) : \A l \in 1..Len(pools[k]) :
+    pc = "recv" => \A k \in 1..Len(pools) : \A l \in 1..Len(pools[k]) :
         pools[k][l].tok.sch = "" => pools[k][l].h.kind = "tcp" /\ pools[k][l].h.scheme = "http"
                                     /\ pools[k][l].h.auth = pools[k][l].tok.name \o ":" \o ToString(pools[k][l].tok.ports[1])
 \* a Casketfile is refused only for the reasons the code names
@@ -530,7 +561,6 @@ TypeOK ==
 -----------------------------------------------------------------------------
 (* 7. lemmas about the operators, evaluated by TLC at start-up (TestAllowedPaths, TestPathMatches, TestProxyDirectorURL) *)
 
-T(s) == s     \* readability: a text is written as a tuple of characters
 ASSUME Matches(<<"/", "a", "b">>, <<"/", "a">>)                       \* rule /api takes /apiary
 ASSUME ~Matches(<<"/", "a", "b">>, <<"/", "a", "/">>)
 ASSUME Matches(<<"/", "A", "/", "x">>, <<"/", "a">>)                   \* case folded
@@ -546,29 +576,20 @@ ASSUME Clean(<<"/", "a", "/", "/", "b", "/", ".", "/", ".", ".", "/">>) = <<"/",
 ASSUME EncPrefixLen(<<"/", "%61", "/", "x">>, <<"/", "a">>) = 2 /\ EncPrefixLen(<<"/", "b">>, <<"/", "a">>) = 0
 
 -----------------------------------------------------------------------------
-(* 8. emission: one CASE per Casketfile (kind cfg) and one per answered request (kind req) *)
+(* 8. emission: one CASE per Casketfile (kind cfg) and one per answered request (no kind field) *)
 
 TokJ(t) == [sch |-> t.sch, name |-> t.name, ports |-> t.ports, path |-> Str(t.path), q |-> t.q]
 RuleJ(r) == [from |-> Str(r.from), ex |-> [k \in 1..Len(r.ex) |-> Str(r.ex[k])], wo |-> Str(r.wo),
              to |-> [k \in 1..Len(r.to) |-> TokJ(r.to[k])], ups |-> [k \in 1..Len(r.ups) |-> TokJ(r.ups[k])]]
-TokId(t) == t.sch \o t.name \o (IF t.ports = << >> THEN "" ELSE ":" \o ToString(t.ports[1]) \o (IF Len(t.ports) = 2 THEN "-" \o ToString(t.ports[2]) ELSE "")) \o Str(t.path) \o (IF t.q = "" THEN "" ELSE "?" \o t.q)
-RECURSIVE TokIds(_)
-TokIds(ts) == IF ts = << >> THEN "" ELSE TokId(Head(ts)) \o (IF Len(ts) > 1 THEN "," ELSE "") \o TokIds(Tail(ts))
-RECURSIVE ExIds(_)
-ExIds(es) == IF es = << >> THEN "" ELSE Str(Head(es)) \o (IF Len(es) > 1 THEN "," ELSE "") \o ExIds(Tail(es))
-RuleId(r) == Str(r.from) \o " to=" \o TokIds(r.to) \o (IF r.ups = << >> THEN "" ELSE " up=" \o TokIds(r.ups))
-             \o (IF r.ex = << >> THEN "" ELSE " ex=" \o ExIds(r.ex)) \o (IF r.wo = << >> THEN "" ELSE " wo=" \o Str(r.wo))
-RECURSIVE RuleIds(_)
-RuleIds(rs) == IF rs = << >> THEN "" ELSE RuleId(Head(rs)) \o (IF Len(rs) > 1 THEN " | " ELSE "") \o RuleIds(Tail(rs))
-CfgId == cfg.space \o ": " \o RuleIds(cfg.rules)
+CfgId == cfg.id
 
 EmitCfg(dummy) == PrintT(<<"CASE", ToJson([kind |-> "cfg", id |-> CfgId, space |-> cfg.space, refused |-> pc = "refused",
                                             rules |-> [k \in 1..N |-> RuleJ(cfg.rules[k])],
                                             pools |-> [k \in 1..Len(pools) |-> [l \in 1..Len(pools[k]) |->
                                                          [kind |-> pools[k][l].h.kind, scheme |-> pools[k][l].h.scheme, auth |-> pools[k][l].h.auth,
                                                           port |-> IF pools[k][l].tok.ports = << >> THEN 0 ELSE pools[k][l].tok.ports[1]]]]])>>)
-EmitReq(dummy) == PrintT(<<"CASE", ToJson([kind |-> "req", id |-> CfgId, t |-> Str(req.raw), q |-> req.q, fq |-> req.fq,
-                                            rule |-> best, host |-> sent.host, hk |-> sent.kind, sch |-> sent.scheme, auth |-> sent.auth,
+\* (scheme, authority and kind of the host that answers are in the cfg line: pools[r][h])
+EmitReq(dummy) == PrintT(<<"CASE", ToJson([id |-> CfgId, t |-> Str(req.raw), q |-> req.q, fq |-> req.fq, r |-> best, h |-> sent.host,
                                             w |-> Str(sent.path), wq |-> sent.query, wfq |-> sent.fq,
                                             esc |-> Escapes, al |-> IF pc = "sent" THEN Aligned ELSE TRUE])>>)
 Emit == /\ (pc = "recv" \/ pc = "refused") => EmitCfg(0)
